@@ -59,7 +59,7 @@ TECHNIQUE = ("Coq proof about the executable model of Validator::validate and of
              "converse (completeness) for conflicts and for statically required arguments, the two recorded findings as "
              "boolean families of definitions with step-level theorems for Parser::remove_overrides / start_custom_arg "
              "+ extracted-model/implementation correspondence + direct python oracle on every successful parse")
-LEVEL_TEXT = ("57 pinned machine-checked theorems (Coq 8.16, all closed under the global context, no standard-library axiom).  "
+LEVEL_TEXT = ("58 pinned machine-checked theorems (Coq 8.16, all closed under the global context, no standard-library axiom).  "
               "C03_parse_sound_tree / C03_parse_top_sound_tree: for every valid definition of the class plain (no short "
               "flag-subcommands) + no_ignore (no node sets ignore_errors; the class is proved to be inherited by every "
               "command the parser builds) and every argv, a successful parse reports -- up to the copy of global "
@@ -75,7 +75,10 @@ LEVEL_TEXT = ("57 pinned machine-checked theorems (Coq 8.16, all closed under th
               "exemption); C03_defaults_inert: Relations is a function of the explicit entries only.  Converse: "
               "C03_conflicts_complete / C03_no_false_conflict (a matcher satisfying the conflict clauses is never "
               "answered ArgumentConflict by the validator, any graph) and C03_validate_iff_static (class static_only: "
-              "validate = Ok <-> Relations).  The model is tied to clap_builder by running the extracted model and the "
+              "validate = Ok <-> Relations); C03_required_set_exact (after the repair of Command::unroll_arg_requires, which "
+              "no longer judges a conditional rule behind a requires chain against the root's values): the requirement "
+              "set validate works from equals the specification's Required set, both inclusions, any graph.  "
+              "The model is tied to clap_builder by running the extracted model and the "
               "real crate on the same generated cases on every check, and an independent python oracle re-checks every "
               "successful parse of the implementation against the documented relation semantics.")
 LEVEL_NOTE = ("Trusted: Coq kernel, extraction, OCaml driver, Rust harness, generators, python oracle.  Recorded findings: "
